@@ -13,7 +13,7 @@ subprocess.run("git -C /repo worktree add --detach %s HEAD" % wt, shell=True, ch
 try:
     subprocess.run("git apply %s/patch.diff" % d, shell=True, cwd=wt, check=True)
     man = json.load(open(os.path.join(VERIF, "MANIFEST.json")))
-    env = dict(os.environ, VERIF_REPO=wt)
+    env = dict(os.environ, VERIF_REPO=wt, VERIF_EVIDENCE_DIR="/tmp/seed-evidence")
     def run(c):
         t0 = time.time()
         r = subprocess.run(c["quick_cmd"], shell=True, cwd=VERIF, env=env, stdout=subprocess.PIPE, stderr=subprocess.STDOUT, text=True)
